@@ -6,6 +6,13 @@
 // (B) atomicity: Write / WriteReader / AppendReader over contents x reader chunkings x pre-existing
 //     states, the process "killed" at EVERY mutating file-system call (and with every torn length of a
 //     write); the final path must be absent or hold exactly the old or exactly the new content.
+// (C) histories (history.go): every sequence of 1..3 (thorough: also 4) backend calls on one key over
+//     {Write, WriteReader, WriteReader that fails after j bytes, AppendReader of the tail from an assumed
+//     offset k, AppendReader that fails after j bytes, Delete(path), Delete(path+".part") as the staging
+//     sweep does, StatFile, Exists} x two content versions, the LAST call also killed at every mutating
+//     file-system call / torn write length; after it the final path must be unchanged, or hold the
+//     complete content its caller intended, or (Delete only) be absent. Runs in 16 worker processes
+//     (the crash shim is process-global) concurrently with (A) and (B).
 package main
 
 import (
